@@ -221,7 +221,66 @@ def _pair_task(r):
     return acc
 
 
+SHAPES = {
+    "2": ["TD:H/CR:ND", "CDP:L/IR:ND/AR:ND", "E:ND/TD:M", "RL:ND", "CR:ND/IR:ND/AR:ND/CDP:H"],
+    "3": ["MS:{notS}/MPR:X", "E:X", "CR:X", "MS:X", "MAV:X/MC:X", "MS:{notS}/MAV:X"],
+    "4.0": ["MSI:X", "MVC:X/E:X", "CR:X", "MSA:X/MSC:X", "MAV:X/S:X"],
+}
+
+
+def extension(tier):
+    """Unary-only extension of the universe: EVERY base assignment of every family (v4: every 37th)
+    with a few shapes in which some optional metric is written as explicit Not Defined next to a
+    defined one - the canonical form drops the former, so the re-parse check exercises the
+    'explicit Not Defined vs omitted' paths on all base vectors."""
+    from .. import spaces
+    out = []
+    for fam in T.FAMILIES:
+        if fam == "2":
+            bases = spaces.v2_base_all()
+        elif fam == "4.0":
+            bases = spaces.parts(T.V4_BASE, T.V4)[::37 if tier != "thorough" else 5]
+        else:
+            bases = spaces.v3_base_all()
+        shapes = SHAPES["3" if fam.startswith("3") else fam]
+        for frag, d in bases:
+            for sh in shapes:
+                if "{notS}" in sh:
+                    sh = sh.replace("{notS}", "C" if d["S"] == "U" else "U")
+                s = T.PREFIX[fam] + frag + "/" + sh
+                out.append((fam, s, None))
+    return out
+
+
+def _ext_task(r):
+    global _U
+    lo, hi = r
+    acc = sweep.new_acc()
+    saved = _U
+    _U = _EXT
+    try:
+        for i in range(lo, hi):
+            acc["n"] += 1
+            acc["calls"] += 12
+            acc["cmp"] += 8
+            why, ms = unary(i)
+            if why:
+                fam, s, key = _EXT[i]
+                sweep.bad(acc, {"what": "%s(%r): %s" % (T.CLASSNAME[fam], s, why), "kind": "unary",
+                                "input": s, "family": fam, "signature": {"kind": "unary"}})
+            else:
+                acc["nontrivial"] += 1
+    finally:
+        _U = saved
+    return acc
+
+
+_EXT = None
+
+
 def build_universe(tier):
+    global _EXT
+    _EXT = extension(tier)
     global _U
     _U = universe(30 if tier == "thorough" else 16, 1400 if tier == "thorough" else 420)
 
@@ -246,6 +305,7 @@ def run(ctx, res):
                                "input": [a, b], "no_fresh_replay": True,
                                "signature": {"kind": "order"}})
             break
+    accs_e = core.task_map(_ext_task, core.split_range(len(_EXT), 64))
     bad_unary = sum(a["nbad"] for a in accs)
     if bad_unary == 0:
         accs_p = core.task_map(_pair_task, ctx.rot(core.split_range(len(_U), 256 if ctx.thorough else 128)))
@@ -262,7 +322,8 @@ def run(ctx, res):
                 break
     else:
         accs_p, tri = [], 0
-    tot = sweep.merge(accs + accs_p)
+    tot = sweep.merge(accs + accs_p + accs_e)
+    res.coverage["unary_extension_vectors"] = len(_EXT)
     cov = res.coverage
     cov["states"] = len(_U)
     cov["transitions"] = sum(a["n"] for a in accs_p)
